@@ -41,7 +41,7 @@ def run(ctx):
             "sess:drop-after-k", "sess:drop-mid-message", "sess:reconnected", "sess:stable", "sess:closed", "sess:messages",
             "sess:close-in-backoff-refusals", "sess:set-right-after-drop", "sess:cap-flip-on-off", "sess:cap-flip-off-on",
             "sess:capflip-ebgp-updates-after-flip", "sess:ebgp-updates-with-connection-width",
-            "sess:hold=0", "sess:hold=nil", "sess:mass-withdraw", "sess:source-address-16-byte-form", "sess:source-address-4-byte-form", "sess:router-id-derived", "sess:keepalive-schedule-keepalives", "sess:failed-attempt-after-a-success", "step:backoff", "step:readerdrop", "step:keepalive", "sess:close-in-handshake", "sess:set-during-write", "sess:set-during-write-messages", "step:abort", "step:abort-with-pending", "step:Set", "step:Set(invalid)", "step:Close"]
+            "sess:hold=0", "sess:hold=nil", "sess:pipe-fault-reconnect", "sess:write-failure-at-the-withdraw", "sess:set-of-advertised-after-other-request", "sess:invalid-set-while-request-pending", "sess:open-after-reconnect-checked", "step:Set-of-advertised-while-pending", "sess:mass-withdraw", "sess:source-address-16-byte-form", "sess:source-address-4-byte-form", "sess:router-id-derived", "sess:keepalive-schedule-keepalives", "sess:failed-attempt-after-a-success", "step:backoff", "step:readerdrop", "step:keepalive", "sess:close-in-handshake", "sess:set-during-write", "sess:set-during-write-messages", "step:abort", "step:abort-with-pending", "step:Set", "step:Set(invalid)", "step:Close"]
     if not thorough:
         need = [k for k in need if k not in ("sess:closed",)] + []
     # white-box comparisons are skipped (not failed) when the session's unexported
@@ -92,6 +92,7 @@ def run(ctx):
                "mass withdraw (Set of 900-1300 host routes, then a handful: one change withdrawing > 814 /32 routes), "
                "Close() landing inside a connection attempt (peer delays its OPEN: after accept, after the peer's OPEN, during the reconnect after a flap), "
                "hold time 3 s with 2.3 s idle (keepalive cadence), timed events (TAt) for the backoff / keepalive lower bounds, "
+               "pipe connections with a write failure at a chosen message index (incl. exactly the withdraw), requests made while the session is down (a request followed by the request for what is advertised; a request followed by a rejected one), hand-made reconnect and a later change; the peer proposes a different hold time on every connection; "
                "Set() calls inside the sender's write window (real sendUpdates/Set on a net.Pipe connection whose peer stops reading mid-flush); "
                "plus white-box step cases (abort / Set / invalid Set / Close on hand-built session values, state before/after compared with the model step); "
                "non-trivial = trace of at least 6 events or a white-box step; distinct by content",
